@@ -232,6 +232,17 @@ type visitor struct{ f *file }
 
 func (v visitor) Visit(n ast.Node) ast.Visitor {
 	switch b := n.(type) {
+	case *ast.CallExpr:
+		// X.TryLock() / X.TryRLock() in any expression position: keep the scheduler's mutex model
+		// in step with the real outcome
+		if recv, name, nargs := selCall(b); recv != nil && nargs == 0 && (name == "TryLock" || name == "TryRLock") {
+			w := "true"
+			if name == "TryRLock" {
+				w = "false"
+			}
+			v.f.add(b.Pos(), fmt.Sprintf("simrt.TryAcquire(&%s, %s, ", v.f.text(recv), w))
+			v.f.add(b.End(), ")")
+		}
 	case *ast.FuncDecl:
 		v.f.fn = b.Name.Name
 		if b.Body != nil && goTargets[b.Name.Name] {
